@@ -10,6 +10,7 @@
   error result at all. The query compiler (lexer/parser) is not modelled: see the evidence file.
 -/
 import JP.Lemmas.Safety
+import JP.Lemmas.LexTotal
 namespace JP.Props.C06
 open JP JP.Pointer JP.Lemmas
 
@@ -61,6 +62,12 @@ theorem patch_build_safe (dec : EscDec) (ue : Bool) (ops : J) (err : Err)
 theorem patch_apply_safe (ops : List Patch.Op) (doc : J) (err : Err)
     (h : Patch.apply ops doc = .error err) : err = .patch ∨ err = .patchTest :=
   Lemmas.patch_apply_safe ops doc err h
+
+/-- **Lexing any text fails only with a syntax error** (character-level lexer model): every rule consumes at
+    least one character, so the scan always terminates within its fuel and the only failure is an
+    illegal character. -/
+theorem lex_safe (cfg : Lex.Cfg) (s : Str) (e : Err) (h : Lex.lexRaw cfg s = .error e) : e = .pathSyntax :=
+  Lemmas.lexRaw_error cfg s e h
 
 /-! ### Non-vacuity: the error branches are inhabited -/
 example : Pointer.parse (fun _ => none) true "a".toList = .error .ptr := by rfl
